@@ -88,7 +88,9 @@ fn main() {
     // detection, lazily built statics, allocator arenas), then the traced run on the secret
     // (the large multiscalar operations warm up with the two-term form: what has to be initialised is the same,
     // and everything before the begin marker is public and identical for every secret anyway)
-    run_op(if op.contains("multiscalar_n") { "ed_multiscalar_2" } else { op }, &[0x42u8; 64]);
+    // (the table operations warm up with the default fixed-base multiplication: building a second table only
+    // doubles the time under the tracer)
+    run_op(if op.contains("multiscalar_n") { "ed_multiscalar_2" } else if op.starts_with("ed_table_") { "ed_mul_base" } else { op }, &[0x42u8; 64]);
     TRACED.store(true, std::sync::atomic::Ordering::Relaxed);
     run_op(op, &sec);
 }
@@ -164,6 +166,35 @@ fn run_op(op: &str, sec: &[u8]) {
             } else {
                 let scalars = black_box(scalars);
                 traced!(&mut slot, EdwardsPoint::multiscalar_mul(scalars.iter(), points.iter()))
+            }
+        }
+        // the same tables driven with the *clamped* secret bytes (an unreduced integer in [2^254, 2^255): the only
+        // inputs for which the last digit / final carry of the recoding is not zero)
+        #[cfg(feature = "tables")]
+        "ed_table_radix16_clamped" | "ed_table_radix32_clamped" | "ed_table_radix64_clamped" | "ed_table_radix128_clamped" | "ed_table_radix256_clamped" => {
+            use curve25519_dalek::edwards::*;
+            use curve25519_dalek::traits::BasepointTable;
+            match op {
+                "ed_table_radix16_clamped" => {
+                    let t = EdwardsBasepointTable::create(&pub_point);
+                    traced!(&mut slot, t.mul_base_clamped(black_box(b32)))
+                }
+                "ed_table_radix32_clamped" => {
+                    let t = EdwardsBasepointTableRadix32::create(&pub_point);
+                    traced!(&mut slot, t.mul_base_clamped(black_box(b32)))
+                }
+                "ed_table_radix64_clamped" => {
+                    let t = EdwardsBasepointTableRadix64::create(&pub_point);
+                    traced!(&mut slot, t.mul_base_clamped(black_box(b32)))
+                }
+                "ed_table_radix128_clamped" => {
+                    let t = EdwardsBasepointTableRadix128::create(&pub_point);
+                    traced!(&mut slot, t.mul_base_clamped(black_box(b32)))
+                }
+                _ => {
+                    let t = EdwardsBasepointTableRadix256::create(&pub_point);
+                    traced!(&mut slot, t.mul_base_clamped(black_box(b32)))
+                }
             }
         }
         #[cfg(feature = "tables")]
